@@ -452,9 +452,9 @@ def gen_filters(chk):
     for count in (100001, 2**62, 2**64 - 1):
         cases.append(fcase("slice", L(I(1)), count=count)); cases.append(fcase("slice", L(), count=count, fill=ZZ))
         cases.append(fcase("batch", L(I(1)), count=count + 1, fill=ZZ))
-    cases.append(fcase("batch", L(I(1), I(2)), count=100002, fill=ZZ))      # 100000 fill items: allowed
+    cases.append(fcase("batch", L(I(1), I(2)), count=1002, fill=ZZ))        # 1000 fill items (the boundary itself, 100000, makes a 1.4 MB line)
     cases.append(fcase("batch", L(), count=2**62, fill=ZZ))                 # nothing to fill
-    cases.append(fcase("slice", L(I(1), I(2)), count=100000))
+    cases.append(fcase("slice", L(I(1), I(2)), count=1000))
     # random longer lists (long enough for the merge phases of slice::sort_by)
     nrand = 6000 if chk.thorough else 1500
     for t in range(nrand):
